@@ -2459,7 +2459,10 @@ def _ctor_recipes():
     def r_data(a):
         g = grid(a["lat"], a["lon"], T=len(a["D"].T))
         d = climate.ClimateData(observable=a["O"], grid=g, time_cycle=2,
-                                silence_level=3)
+                                window=a["win"], silence_level=3)
+        d.set_window(a["win"])
+        core.Data(observable=a["O"], grid=g, window=a["win2"],
+                  silence_level=3).set_window(a["win2"])
         d.anomaly()
         d.phase_mean()
         climate.TsonisClimateNetwork(d, threshold=0.3, silence_level=3)
@@ -2518,6 +2521,12 @@ def _ctor_arrays(case):
         "x": arr((T,), 17, fd), "t": np.array(np.arange(T), dtype=fd),
         "D": arr((n, T), 19, fd), "O": arr((T, n), 23, fd),
         "E": np.array(arr((T, n), 29, float) > 0.9, dtype=idt, order=order),
+        # caller-owned window dictionaries: 'coinciding bounds' sentinels
+        # (full range along that axis) and ordinary bounds
+        "win": {"time_min": 0.0, "time_max": 0.0, "lat_min": -90.0,
+                "lat_max": 90.0, "lon_min": 0.0, "lon_max": 0.0},
+        "win2": {"time_min": 1.0, "time_max": float(T - 2), "lat_min": 0.0,
+                 "lat_max": 0.0, "lon_min": -180.0, "lon_max": 180.0},
     }
     return out
 
@@ -2539,9 +2548,10 @@ def oracle_ctor_inputs(case, rec):
     changed = [k for k in sorted(arrays) if before[k] != snap(arrays[k])]
     rec.nontrivial(True)
     for k in changed:
-        rec.fail("input/ctor:%s:%s_dtype_%s" % (kind, k, arrays[k].dtype),
-                 "caller array %r (dtype %s, %s order) modified" % (
-                     k, arrays[k].dtype, case["order"]))
+        rec.fail("input/ctor:%s:%s_dtype_%s" % (
+            kind, k, getattr(arrays[k], "dtype", "dict")),
+                 "caller object %r (dtype %s, %s order) modified" % (
+                     k, getattr(arrays[k], "dtype", "dict"), case["order"]))
 
 
 @st.composite
